@@ -2,6 +2,7 @@
     Only property theorems live here, each closed by [exact] and followed by
     [Print Assumptions].  Model: Kernels/Trim.v. *)
 From LQ Require Import Base.Str Kernels.Trim Proofs.Trim_proofs.
+From LQ Require Kernels.FVal Kernels.LexUni Kernels.Translate Kernels.Inherit Proofs.CrossModel_ws.
 
 (** [Environment.trim], for every text, marker pair and default: erasing
     whitespace from the result gives the same as erasing it from the text, and
@@ -77,3 +78,16 @@ Theorem c18_right_marker_trims_whole_run_refuted :
   exists dt toks, ~ right_marker_honoured dt toks.
 Proof. exact right_marker_trims_whole_run_refuted_proof. Qed.
 Print Assumptions c18_right_marker_trims_whole_run_refuted.
+
+(** The whitespace table of this kernel ([Trim.is_ws], what [str.strip()] and
+    [str.isspace()] recognise) is the same function, on every code point, as the
+    independently written tables of the C19, C17, C15 and C08 kernels (the last
+    on the code points below 256 it covers); each is also compared with the
+    running CPython by its own harness. *)
+Theorem c18_whitespace_tables_agree : forall c : N,
+  Trim.is_ws c = FVal.py_isspace c
+  /\ LexUni.is_space c = FVal.py_isspace c
+  /\ Translate.is_space c = FVal.py_isspace c
+  /\ (c < 256 -> Inherit.is_ws c = FVal.py_isspace c)%N.
+Proof. exact CrossModel_ws.isspace_models_agree. Qed.
+Print Assumptions c18_whitespace_tables_agree.
